@@ -73,7 +73,7 @@ def make_units(tier, monitors_=('nostate',)):
     units = _base_make_units(tier, monitors_)
     from mc.props import c01
     for u in c01.make_units(tier):
-        if u['bound'] > 1 and tier == 'quick':
+        if (u['bound'] > 1 or u.get('policy') == 'app-first-batch') and tier == 'quick':
             continue
         units.append({'name': 'mix:' + u['name'], 'inters': u['inters'], 'flavour': u['flavour'], 'fs': u['fs'], 'bound': 1 if tier == 'quick' else u['bound'],
                       'shard': u['shard'], 'monitors': list(monitors_), 'policy': 'deliver-first'})
